@@ -2,6 +2,7 @@
 from io import StringIO
 from typing import List, Optional
 import xhlib
+from xhlib import L1, L2, L3, L4
 from xhlib import REC, StubParam, record, params, gaps_blank, SM_KEYS
 from simfile.sm import SMSimfile, SMChart, SM_CHART_PROPERTIES
 from simfile.base import BaseSimfile
@@ -78,7 +79,7 @@ def props3(k0: int, dup: bool, v0: str, v1: str, v2: str, n0: bool, f: str, has_
     """
     pre: 0 <= k0 < len(SM_KEYS)
     pre: SM_KEYS[k0] not in MULTI
-    pre: len(v0) <= 3 and len(v1) <= 3 and len(v2) <= 3 and len(f) <= 2 and f == f.strip()
+    pre: len(v0) <= L3 and len(v1) <= L3 and len(v2) <= L3 and len(f) <= L2 and f == f.strip()
     post: _
     """
     sf = _empty()
@@ -92,7 +93,7 @@ def props3(k0: int, dup: bool, v0: str, v1: str, v2: str, n0: bool, f: str, has_
 
 def multi_value(which: bool, v: str, other: int, none_value: bool) -> bool:
     """
-    pre: len(v) <= 3 and 0 <= other < len(REP_MULTI)
+    pre: len(v) <= L3 and 0 <= other < len(REP_MULTI)
     post: _
     """
     sf = _empty()
@@ -105,7 +106,7 @@ def multi_value(which: bool, v: str, other: int, none_value: bool) -> bool:
 def chart_field(i: int, f: str, e0: str, e1: str, nextra: int, two: bool) -> bool:
     """
     pre: 0 <= i < 6 and 0 <= nextra <= 2
-    pre: len(f) <= 2 and f == f.strip() and len(e0) <= 2 and len(e1) <= 2
+    pre: len(f) <= L2 and f == f.strip() and len(e0) <= L2 and len(e1) <= L2
     post: _
     """
     sf = _empty()
@@ -122,7 +123,7 @@ def chart_field(i: int, f: str, e0: str, e1: str, nextra: int, two: bool) -> boo
 def chart_attr_edit(i: int, f: str) -> bool:
     """
     pre: 0 <= i < 6
-    pre: len(f) <= 2 and f == f.strip()
+    pre: len(f) <= L2 and f == f.strip()
     post: _
     """
     sf = SMSimfile.blank()
@@ -137,7 +138,7 @@ OPS = 9
 
 def edit_step(op: int, k: int, v: str, pre_has: bool, pre_chart: bool) -> bool:
     """
-    pre: 0 <= op < OPS and 0 <= k < len(EDIT_KEYS) and len(v) <= 3
+    pre: 0 <= op < OPS and 0 <= k < len(EDIT_KEYS) and len(v) <= L3
     post: _
     """
     # arbitrary small pre-state, one edit, then the round trip must still hold
